@@ -129,7 +129,7 @@ class TableUnit(Unit):
         ctx.bump("table_rows_generated_by_tlc_and_replayed", rep["rows"])
         ctx.bump("real_calls_in_table_replay", rep["calls"])
         first = {}
-        for m in rep["mismatches"]:
+        for m in rep.get("mismatches") or []:
             first.setdefault(m["sig"], m)
         for sig in sorted(first):
             if any(v["sig"] == sig for v in ctx.violations):
@@ -270,13 +270,86 @@ def stream_units():
     }
 
 
+# ------------------------------------------------------------------------------------------ Deser
+
+DESER_CONSTS = "CONSTANTS\n Mode = \"total\"\n L = %d\n Alphabet = %s\n Discipline = \"checked\"\n"
+DESER_PARTS = 14
+DESER_READER = {"Num": "ReadNum", "Bool": "ReadBool", "Byte": "ReadByte", "Bytes": "ReadBytes", "InPlace": "ReadBytesInPlace",
+                "VarBytes": "ReadVariableByteSlice", "String": "ReadString", "U256": "ReadUint256", "Time": "ReadTime",
+                "PayLen": "ReadPayloadLength", "Skip": "Skip", "Prefix": "CheckTypePrefix", "Seq": "ReadSequenceOfObjects", "All": "ConsumedAll"}
+
+
+def deser_gen(ctx):
+    def cfg(what, part, parts):
+        return "INIT GInit\nNEXT GNext\n" + DESER_CONSTS % (6, ALPHABET) + " GenWhat = \"%s\"\n GenPart = %d\n GenParts = %d\n" % (what, part, parts)
+    jobs = [("deser.rt", "DeserGen", cfg("rt", 0, 1))]
+    jobs += [("deser.tot.%d" % i, "DeserGen", cfg("tot", i, DESER_PARTS)) for i in range(DESER_PARTS)]
+    rows = tlc_rows(ctx, jobs, ["RT", "WR", "TOT"])
+    return {"rt": rows["RT"] + rows["WR"], "tot": rows["TOT"]}
+
+
+def deser_culprit(prog):
+    for o in prog:
+        if o["op"] in ("VarBytes", "String", "Seq"):
+            return DESER_READER[o["op"]]
+    return DESER_READER[prog[-1]["op"]]
+
+
+def deser_classify(rec, want):
+    prog, got, w = rec["p"], rec["got"], want["got"]
+    name = "Deserializer." + deser_culprit(prog)
+    data = rec["s"] if rec["k"] == "mut" else rec["w"] + rec["tail"]
+    chain = ".".join("%s(%s)" % (DESER_READER[o["op"]], ",".join(str(o[k]) for k in ("a", "b", "c"))) for o in prog)
+    call = "%s over %d bytes %s%s" % (chain, len(data), data[:24], "..." if len(data) > 24 else "")
+    case = {"p": prog, "input": data, "variant": rec.get("variant", 0), "want": w}
+    if rec["k"] == "wr":
+        return name + ":write-fails", "the Serializer chain refused writable values %s: %s" % (json.dumps(rec["v"])[:100], rec.get("werr")), case
+    if got.get("panic"):
+        return name + ":panic", "%s panicked: %s" % (call, got["panic"]), case
+    if rec["k"] == "rt" and not want["writable"]:
+        return name + ":writer-accepts-out-of-range-length", "the Serializer chain accepted values %s that violate min/max/prefix range" % json.dumps(rec["v"])[:100], case
+    if rec["k"] == "rt" and rec["w"] != want["w"]:
+        return name + ":bytes-differ-from-model", "the Serializer chain wrote %s, the model's layout is %s" % (rec["w"][:40], want["w"][:40]), case
+    if rec["k"] == "mut" and rec["alloc"] > 65536 + 16 * len(data):
+        return name + ":alloc-from-prefix", "%s allocated %d bytes (bound %d)" % (call, rec["alloc"], 65536 + 16 * len(data)), case
+    if rec["iters"] > len(data) + 1:
+        return name + ":iterates-beyond-input", "%s ran %d element iterations" % (call, rec["iters"]), case
+    if got["off"] > len(data):
+        return name + ":over-consumed", "%s: Done() reported %d consumed bytes" % (call, got["off"]), case
+    pre = "round-trip:" if rec["k"] == "rt" else ""
+    if w["ok"] and not got["ok"]:
+        return name + ":" + pre + "rejects-valid-input", "%s failed with %s; the model reads %s" % (call, got["err"], json.dumps(w["vals"])[:80]), case
+    if not w["ok"] and got["ok"]:
+        return name + ":accepts-invalid-input", "%s returned %s (consumed %d); the model demands an error %s" % (
+            call, json.dumps(got["vals"])[:80], got["off"], w["errs"]), case
+    if not w["ok"]:
+        return name + ":wrong-error-class", "%s failed with %r, the model allows %s" % (call, got["err"], w["errs"]), case
+    if rec["k"] == "mut" and got["off"] != w["off"]:
+        return name + ":wrong-consumed", "%s: Done() reported %d consumed bytes, the model demands %d" % (call, got["off"], w["off"]), case
+    if rec["k"] == "rt" and got["off"] != len(rec["w"]):
+        return name + ":round-trip:wrong-consumed", "%s: Done() reported %d consumed bytes, %d were written" % (call, got["off"], len(rec["w"])), case
+    return name + ":" + pre + "wrong-value", "%s returned %s, the model demands %s" % (call, json.dumps(got["vals"])[:100], json.dumps(w["vals"])[:100]), case
+
+
+def deser_units():
+    return {
+        "mc_rt": McUnit(SUB, "Deser", name="Deser:mc:roundtrip"),
+        "mc_tot": McUnit(SUB, "Deser", cfgkind="total", name="Deser:mc:total-all-strings"),
+        "mc_neg": McUnit(SUB, "Deser", cfgkind="allocfirst", name="Deser:mc:alloc-first-control", expect="AllocBounded"),
+        "table": TableUnit("Deser:table", "deser-table", deser_gen, expect_rows=lambda ctx: 46 * 5461 + 300),
+        "records": RecordsUnit("Deser:records", "deser-records", "DeserTrace", deser_classify, n=(1500, 20000),
+                               consts=DESER_CONSTS % (0, "{0}")),
+    }
+
+
 # ------------------------------------------------------------------------------------------ composition
 
 def _all(ctx):
-    s = stream_units()
-    return {"C01": [s["mc_rt"], s["mc_neg"], s["table"], s["records"]],
-            "C02": [s["mc_tot"], s["table"], s["records"]],
-            "all": [s["mc_rt"], s["mc_tot"], s["mc_neg"], s["table"], s["records"]]}
+    s, d = stream_units(), deser_units()
+    return {"C01": [s["mc_rt"], s["mc_neg"], s["table"], s["records"], d["mc_rt"], d["table"], d["records"]],
+            "C02": [s["mc_tot"], s["table"], s["records"], d["mc_tot"], d["mc_neg"], d["table"], d["records"]],
+            "all": [s["mc_rt"], s["mc_tot"], s["mc_neg"], s["table"], s["records"],
+                    d["mc_rt"], d["mc_tot"], d["mc_neg"], d["table"], d["records"]]}
 
 
 ASSUMPTIONS = [
